@@ -136,7 +136,7 @@ pub trait AutoMerge: RemoteSyncHandler {
         match self.scan_proofs(req).await {
             Ok(Some((ancestor_commit, proof))) => {
                 self.try_merge_from_ancestor::<T>(
-                    EventLogType::Identity,
+                    log_type,
                     ancestor_commit,
                     proof,
                 )
